@@ -9,7 +9,6 @@
   _set_bound                 lower/upper vectors: component off(k)+i carries tr_k(low), tr_k(high), tr_k = log10 iff
                              logarithmic, shared or per-component boundary pairs (bounded shapes, symbolic bounds)
   inbox (lemma)              lbd <= d <= ubd component-wise  =>  applied value inside its declared [low, high]
-  report.same_map            champions and best individuals are reported through the same convert_to_parameters
   report.champions / .best   _get_champions / get_best_individuals executed symbolically with pygmo and xarray as boundary objects:
                              the reported parameters are convert_to_parameters of the SAME array that is reported as decision, the
                              fitness comes from the same individuals, one selection per island dataset (contracts/calibreport.py)
@@ -311,16 +310,8 @@ def lemmas(u: Unit):
     u.oblige(None, "inbox[linear]", z3.And(d >= lo, d <= hi), {}, REPLAY, fnq=fq, hyps=[lo <= d, d <= hi])
 
 
-@unit("C10", "report.same_map")
-def report_same_map(u: Unit):
-    for name, var in (("_get_champions", "champion_decision"), ("get_best_individuals", "decision_vectors_2d")):
-        fi = u.fn(f"{AD}::ArchipelagoDataTree.{name}")
-        calls = [n for n in ast.walk(fi.node) if isinstance(n, ast.Call) and ast.unparse(n.func).endswith("convert_to_parameters")]
-        ok = len(calls) == 1 and var in ast.unparse(calls[0].args[0] if calls[0].args else calls[0].keywords[0].value)
-        u.static(f"report.same_map[{name}]", ok, fi.qualname, f"{name}: reported parameters = problem.convert_to_parameters(<{var}>) ({[ast.unparse(c)[:90] for c in calls]})")
-
-
 # the reporting path by symbolic execution with pygmo / xarray as boundary objects (provenance obligations)
 from . import calibreport as _CR  # noqa: E402
 unit("C10", "report.champions")(_CR.champions_unit)
 unit("C10", "report.best")(_CR.best_unit)
+STANDIN = {r"report\.": _CR.CHAMP_REPLAY}
